@@ -36,7 +36,8 @@ theorem C03_source_facts :
     Gen.CFHeaders.thresholdComparisons = true ∧
     Gen.CFHeaders.verifyCalledInResolve = true ∧
     Gen.CFHeaders.writeResolvesBlocksByStopHash = true ∧
-    Gen.CFHeaders.resolveSanityOnWholeLists = true := by decide
+    Gen.CFHeaders.resolveSanityOnWholeLists = true ∧
+    Gen.CFHeaders.responseLengthTest = "len(m.FilterHashes)==numHeaders" := by decide
 
 /-- (a) the filter-header chain never runs ahead of the block-header chain -/
 theorem C03_not_ahead (H : FHash → Hdr → Hdr) (s0 : St) (h0 : Inv H s0) (ops : List Op) :
@@ -130,6 +131,37 @@ theorem C03_hash_chain_step (H : FHash → Hdr → Hdr) (ff : Bool) (s : St) (hi
     rw [(resolveConflict_frame interval hard s net cp).1]
     exact Grows.refl _
   | cp interval cps evs => exact ⟨s.fstore, List.prefix_refl _, (cpRound_ok H interval s cps evs hi).2⟩
+
+/-- only responses of exactly the requested length for the requested stop hash
+are ever compared or written: everything the response filter of
+`getCFHeadersForAllPeers` keeps has the requested stop hash and exactly
+`batchLen s` filter hashes (too short, too LONG and wrong-stop-hash answers are
+dropped, whoever sends them), and whatever an at-tip round appends to the
+filter store is the hash chain of one such response, started at the tip — so the
+store grows by exactly the number of headers asked for, or not at all -/
+theorem C03_response_exact (H : FHash → Hdr → Hdr) (s : St) (net : Net) :
+    (∀ pm ∈ gather s net (batchLen s), pm.2.stopOk = true ∧ pm.2.hashes.length = batchLen s) ∧
+    ((tipRound H s net).1.fstore = s.fstore ∨
+     ∃ pm ∈ gather s net (batchLen s), s.fstore.getLast? = some pm.2.prev ∧
+       (tipRound H s net).1.fstore = s.fstore ++ chainFrom H pm.2.prev pm.2.hashes ∧
+       (tipRound H s net).1.fstore.length = s.fstore.length + batchLen s) := by
+  refine ⟨gather_exact s net (batchLen s), ?_⟩
+  obtain ⟨s2, a, h⟩ := tipRound_shape' H s net
+  rcases h with h | ⟨hs2, hsub, h⟩
+  · left; rw [h, a]
+  · rcases commitPick_fstore H s2 net.pick hs2 with c | ⟨pm, hpm, c1, c2⟩
+    · left; rw [h, c, a]
+    · right
+      have hg := hsub pm hpm
+      refine ⟨pm, hg, by rw [← a]; exact c1, by rw [h, c2, a], ?_⟩
+      rw [h, c2, a, List.length_append, chainFrom_length, (gather_exact s net (batchLen s) pm hg).2]
+
+example : (gather { blocks := [0, 1, 2], fstore := [1], fblk := [0] }
+    { peers := [1, 2, 3, 4]
+      resps := fun p => if p = 1 then [⟨true, 1, [7, 8, 9]⟩] else if p = 2 then [⟨true, 1, [7]⟩]
+                        else if p = 3 then [⟨false, 1, [7, 8]⟩] else [⟨true, 1, [7, 8, 9]⟩, ⟨true, 1, [7, 8]⟩]
+      served := fun _ _ => none, verify := fun _ _ => .ok 0, getBlock := fun _ => true, pick := 0 } 2).map (·.1)
+    = [4] := by decide
 
 /-- (b) a batch fetched for blocks that have meanwhile been reorganised away is
 not written: when the reorganisation that lands between the query and the write
